@@ -1,2 +1,6 @@
 CLAIMS = {
+ "C02": dict(claimed=True, engine="E3-alg + extract + E4b-locsets",
+   technique="algebraic normal-form identities over the extracted metric formulas; location-set dataflow",
+   text="Proves, as polynomial identities over the source expressions of the metric method (both arms of `orthogonal`), that g^ij and g_ij are inverse, J=hy/Bpxy with J^2 det(g^ij)=1, the closed forms of the statement, that the two arms agree at beta=0, that g_23 = g_33*hy*(zShift integrand) on every non-raising sign path, and the beta relations; plus a dataflow (E4b) that every metric field has computed data at centre/xlow/ylow. The identities hold for all values of the symbols (any equilibrium, both signs of Bp), which no finite test sample gives. It decides the formulas, not the numbers.",
+   note="Trusted: numpy elementwise semantics, MultiLocationArray ufunc protocol as modelled in hv/locsets.py, sign(Bpxy)=bpsign (proved structurally in C03.R4). Not decided: covariant components vs actual displacements, accuracy of beta."),
 }
